@@ -249,57 +249,13 @@ def Holds (E : Nat → SigMap) (nodes : Array CNode) (env : Env) (bind : Nat →
   | some (.konst k) => nodeVal nodes env n = k
   | none => True
 
-/-- the two valuations agree: the constant combinator bound to an input node carries that input's value -/
+/-- the two valuations agree: the constant combinator bound to an input node carries that input's value,
+and nothing else is overridden -/
 def InputsAgree (nodes : Array CNode) (bind : Nat → Option Bind) (inp : Inputs) (env : Env) : Prop :=
   (∀ n name ty v e s, nodes[n]? = some (.input name ty v) → bind n = some (.ent e s) →
       inp e = some [(s, (env.input name).getD v)]) ∧
-  (∀ n e s, bind n = some (.ent e s) → (∀ name ty v, nodes[n]? ≠ some (.input name ty v)) → inp e = none)
-
-theorem matchOperand_sound (c : Circuit) (E : Nat → SigMap) (hE : EmitsOK c E) (nodes : Array CNode) (env : Env)
-    (bind : Nat → Option Bind) (i : Nat) (o : Operand) (a : Arg) (n : Nat)
-    (hbelow : argBelow n a = true) (ih : ∀ m, m < n → Holds E nodes env bind m)
-    (h : matchOperand c bind i o a = true) :
-    o.val (c.readR E i) (c.readG E i) = argVal nodes (evalNodes nodes env) a := by
-  cases o with
-  | const k =>
-    cases a with
-    | int k' =>
-      simp only [matchOperand, beq_iff_eq] at h
-      simp [Operand.val, argVal, h]
-    | node m =>
-      simp only [matchOperand, beq_iff_eq] at h
-      have hm : m < n := by simpa [argBelow] using hbelow
-      have := ih m hm
-      unfold Holds at this
-      rw [h] at this
-      simp only [Operand.val]
-      exact this.symm
-  | ref r sel =>
-    cases r with
-    | sig s =>
-      cases a with
-      | int k => simp [matchOperand] at h
-      | node m =>
-        simp only [matchOperand] at h
-        have hm : m < n := by simpa [argBelow] using hbelow
-        cases hb : bind m with
-        | none => simp [hb] at h
-        | some b =>
-          cases b with
-          | konst k => simp [hb] at h
-          | ent e s' =>
-            simp only [hb, Bool.and_eq_true, beq_iff_eq] at h
-            obtain ⟨hs, hiso⟩ := h
-            subst hs
-            have := ih m hm
-            unfold Holds at this
-            rw [hb] at this
-            simp only [Operand.val]
-            rw [read_isolated c E hE i sel s e hiso]
-            exact this
-    | each => cases a <;> simp [matchOperand] at h
-    | anything => cases a <;> simp [matchOperand] at h
-    | everything => cases a <;> simp [matchOperand] at h
+  (∀ n e s, bind n = some (.ent e s) → (∀ name ty v, nodes[n]? ≠ some (.input name ty v)) → inp e = none) ∧
+  (∀ e, inp e ≠ none → ∃ n name ty v s, n < nodes.size ∧ nodes[n]? = some (.input name ty v) ∧ bind n = some (.ent e s))
 
 theorem kind_getD (nodes : Array CNode) (n : Nat) (nd : CNode) (h : nodes[n]? = some nd) :
     ∃ hn : n < nodes.size, nodes[n] = nd := by
@@ -324,10 +280,15 @@ structure Ctx where
   hinp : InputsOK c inp
   hagree : InputsAgree nodes bind inp env
 
-theorem Ctx.emits (x : Ctx) : EmitsOK x.c x.E := emitsOK_of_fixpoint x.c x.inp x.hinp x.E x.hfix
+namespace Ctx
+
+theorem emits (x : Ctx) : EmitsOK x.c x.E := emitsOK_of_fixpoint x.c x.inp x.hinp x.E x.hfix
+
+/-- value of a Core argument in the final evaluation -/
+def av (x : Ctx) (a : Arg) : I32 := argVal x.nodes (evalNodes x.nodes x.env) a
 
 /-- the output of a non-overridden entity in a fixpoint -/
-theorem Ctx.out_eq (x : Ctx) (e : Nat) (hno : x.inp e = none) :
+theorem out_eq (x : Ctx) (e : Nat) (hno : x.inp e = none) :
     x.E e = (match x.c.kind e with
       | .const m => m
       | .arith cfg => evalArith cfg (x.c.readR x.E e) (x.c.readG x.E e)
@@ -338,204 +299,509 @@ theorem Ctx.out_eq (x : Ctx) (e : Nat) (hno : x.inp e = none) :
   rw [hno]
   rfl
 
-theorem sound_arith (x : Ctx) (n e : Nat) (s : Sig) (op : ArithOp) (a b : Arg) (ty : Sig) (cfg : ArithCfg)
-    (hnode : x.nodes[n]? = some (.arith op a b ty)) (hbind : x.bind n = some (.ent e s))
-    (hkind : x.c.kind e = .arith cfg)
-    (ih : ∀ m, m < n → Holds x.E x.nodes x.env x.bind m)
-    (ha : argBelow n a = true) (hb : argBelow n b = true) (hop : cfg.op = op)
-    (hf : cfg.first.isEach = false) (hs : cfg.second.isEach = false) (hout : cfg.out = some (.sig s))
-    (h1 : matchOperand x.c x.bind e cfg.first a = true) (h2 : matchOperand x.c x.bind e cfg.second b = true) :
-    Holds x.E x.nodes x.env x.bind n := by
-  obtain ⟨hn, hnd⟩ := kind_getD x.nodes n _ hnode
-  unfold Holds
-  rw [hbind]
-  show get (x.E e) s = nodeVal x.nodes x.env n
-  have hno : x.inp e = none := x.hagree.2 n e s hbind (by intro name ty' v hh; rw [hnode] at hh; cases hh)
-  rw [x.out_eq e hno, hkind]
-  show get (evalArith cfg _ _) s = _
-  rw [get_evalArith_scalar cfg s hf hs hout, if_pos rfl,
-    matchOperand_sound x.c x.E x.emits x.nodes x.env x.bind e cfg.first a n ha ih h1,
-    matchOperand_sound x.c x.E x.emits x.nodes x.env x.bind e cfg.second b n hb ih h2,
-    nodeVal_eq x.nodes x.env n hn ty (by rw [hnd]; rfl), hnd]
-  simp only [evalNode, get_single, hop,
-    argVal_prefix x.nodes x.env n (by omega) a ha, argVal_prefix x.nodes x.env n (by omega) b hb]
-  simp
+theorem inp_none_of_arith (x : Ctx) (e : Nat) (cfg : ArithCfg) (hk : x.c.kind e = .arith cfg) : x.inp e = none := by
+  cases h : x.inp e with
+  | none => rfl
+  | some m =>
+    obtain ⟨t, v, lit, hk', _⟩ := x.hinp e m h
+    rw [hk] at hk'; cases hk'
 
-theorem cond_eval_sound (x : Ctx) (e : Nat) (cd : Cond) (op : CmpOp) (a b : Arg) (n : Nat)
-    (ih : ∀ m, m < n → Holds x.E x.nodes x.env x.bind m)
-    (ha : argBelow n a = true) (hb : argBelow n b = true)
-    (hc : cd.usesEach = false) (hop : cd.op = op)
-    (h1 : matchOperand x.c x.bind e cd.first a = true) (h2 : matchOperand x.c x.bind e cd.second b = true) :
-    cd.eval (x.c.readR x.E e) (x.c.readG x.E e) none =
-      cmp op (argVal x.nodes (evalNodes x.nodes x.env) a) (argVal x.nodes (evalNodes x.nodes x.env) b) := by
-  have v1 := matchOperand_sound x.c x.E x.emits x.nodes x.env x.bind e cd.first a n ha ih h1
-  have v2 := matchOperand_sound x.c x.E x.emits x.nodes x.env x.bind e cd.second b n hb ih h2
-  have hrhs : cd.rhs (x.c.readR x.E e) (x.c.readG x.E e) none = cd.second.val (x.c.readR x.E e) (x.c.readG x.E e) := by
+theorem inp_none_of_decider (x : Ctx) (e : Nat) (cfg : DeciderCfg) (hk : x.c.kind e = .decider cfg) : x.inp e = none := by
+  cases h : x.inp e with
+  | none => rfl
+  | some m =>
+    obtain ⟨t, v, lit, hk', _⟩ := x.hinp e m h
+    rw [hk] at hk'; cases hk'
+
+theorem inp_none_of_notInput (x : Ctx) (p : Nat) (h : notInputEnt x.nodes x.bind p = true) : x.inp p = none := by
+  cases hi : x.inp p with
+  | none => rfl
+  | some m =>
+    exfalso
+    obtain ⟨n, name, ty, v, s, hn, hnode, hb⟩ := x.hagree.2.2 p (by rw [hi]; simp)
+    unfold notInputEnt at h
+    rw [List.all_eq_true] at h
+    have := h n (List.mem_range.mpr hn)
+    rw [hnode, hb] at this
+    simp at this
+
+end Ctx
+
+theorem soleProducer_isolated (c : Circuit) (i : Nat) (sel : Sel) (s : Sig) (p : Nat)
+    (h : c.soleProducer i sel s = some p) : c.isolated i sel s p = true := by
+  unfold Circuit.soleProducer at h
+  unfold Circuit.isolated
+  split at h
+  · rename_i e heq
+    injection h with h
+    subst h
+    rw [heq]
+    simp
+  · cases h
+
+theorem matchOperand_sound (x : Ctx) (i : Nat) (o : Operand) (a : Arg) (n : Nat)
+    (hbelow : argBelow n a = true) (ih : ∀ m, m < n → Holds x.E x.nodes x.env x.bind m)
+    (h : matchOperand x.c x.nodes x.bind i o a = true) :
+    o.val (x.c.readR x.E i) (x.c.readG x.E i) = x.av a := by
+  unfold Ctx.av
+  cases o with
+  | const k =>
+    cases a with
+    | int k' =>
+      simp only [matchOperand, beq_iff_eq] at h
+      simp [Operand.val, argVal, h]
+    | node m =>
+      simp only [matchOperand, beq_iff_eq] at h
+      have hm : m < n := by simpa [argBelow] using hbelow
+      have := ih m hm
+      unfold Holds at this
+      rw [h] at this
+      simp only [Operand.val]
+      exact this.symm
+  | ref r sel =>
+    cases r with
+    | sig s =>
+      cases a with
+      | int k =>
+        simp only [matchOperand] at h
+        cases hsp : x.c.soleProducer i sel s with
+        | none => simp [hsp] at h
+        | some p =>
+          simp only [hsp, Bool.and_eq_true] at h
+          obtain ⟨hkind, hni⟩ := h
+          have hno := x.inp_none_of_notInput p hni
+          cases hk : x.c.kind p with
+          | const m =>
+            rw [hk] at hkind
+            match m, hkind with
+            | [(t, v)], hkind =>
+              simp only [Bool.and_eq_true, beq_iff_eq] at hkind
+              obtain ⟨ht, hv⟩ := hkind
+              subst ht; subst hv
+              simp only [Operand.val, argVal]
+              rw [read_isolated x.c x.E x.emits i sel t p (soleProducer_isolated _ _ _ _ _ hsp), x.out_eq p hno, hk]
+              simp
+          | _ => rw [hk] at hkind; simp at hkind
+      | node m =>
+        simp only [matchOperand] at h
+        have hm : m < n := by simpa [argBelow] using hbelow
+        cases hb : x.bind m with
+        | none => simp [hb] at h
+        | some b =>
+          cases b with
+          | konst k => simp [hb] at h
+          | ent e s' =>
+            simp only [hb, Bool.and_eq_true, beq_iff_eq] at h
+            obtain ⟨hs, hiso⟩ := h
+            subst hs
+            have := ih m hm
+            unfold Holds at this
+            rw [hb] at this
+            simp only [Operand.val]
+            rw [read_isolated x.c x.E x.emits i sel s e hiso]
+            exact this
+    | each => cases a <;> simp [matchOperand] at h
+    | anything => cases a <;> simp [matchOperand] at h
+    | everything => cases a <;> simp [matchOperand] at h
+
+/-- operands the matcher accepts are plain: a constant or one named signal -/
+def Operand.isPlain : Operand → Bool
+  | .const _ => true
+  | .ref (.sig _) _ => true
+  | _ => false
+
+theorem matchOperand_plain (c : Circuit) (nodes : Array CNode) (bind : Nat → Option Bind) (i : Nat) (o : Operand) (a : Arg)
+    (h : matchOperand c nodes bind i o a = true) : o.isPlain = true := by
+  cases o with
+  | const k => rfl
+  | ref r sel => cases r <;> cases a <;> simp_all [matchOperand, Operand.isPlain]
+
+theorem opIs_plain (c : Circuit) (nodes : Array CNode) (bind : Nat → Option Bind) (rec : Nat → Sig → Bool)
+    (v : VExpr) (i : Nat) (o : Operand) (h : opIs c nodes bind rec v i o = true) : o.isPlain = true := by
+  cases v with
+  | arg a => exact matchOperand_plain c nodes bind i o a (by simpa [opIs] using h)
+  | _ =>
+    cases o with
+    | const k => rfl
+    | ref r sel => cases r <;> simp_all [opIs, lookThrough, Operand.isPlain]
+
+theorem opIs_sound (x : Ctx) (n : Nat) (ih : ∀ m, m < n → Holds x.E x.nodes x.env x.bind m)
+    (rec : Nat → Sig → Bool) (v : VExpr) (i : Nat) (o : Operand)
+    (hrec : ∀ p t, rec p t = true → get (x.E p) t = v.val x.av)
+    (hunder : v.under n = true)
+    (h : opIs x.c x.nodes x.bind rec v i o = true) :
+    o.val (x.c.readR x.E i) (x.c.readG x.E i) = v.val x.av := by
+  have look : lookThrough x.c rec i o = true →
+      o.val (x.c.readR x.E i) (x.c.readG x.E i) = v.val x.av := by
+    intro h
+    unfold lookThrough at h
+    cases o with
+    | const k => simp at h
+    | ref r sel =>
+      cases r with
+      | sig t =>
+        simp only at h
+        cases hsp : x.c.soleProducer i sel t with
+        | none => simp [hsp] at h
+        | some p =>
+          simp only [hsp] at h
+          simp only [Operand.val]
+          rw [read_isolated x.c x.E x.emits i sel t p (soleProducer_isolated _ _ _ _ _ hsp)]
+          exact hrec p t h
+      | each => simp at h
+      | anything => simp at h
+      | everything => simp at h
+  cases v with
+  | arg a =>
+    simp only [opIs] at h
+    simp only [VExpr.val]
+    exact matchOperand_sound x i o a n (by simpa [VExpr.under] using hunder) ih h
+  | alu op y z => exact look (by simpa [opIs] using h)
+  | cmpB op y z => exact look (by simpa [opIs] using h)
+  | gate op y z w => exact look (by simpa [opIs] using h)
+  | allB cs => exact look (by simpa [opIs] using h)
+  | anyB cs => exact look (by simpa [opIs] using h)
+
+/-! ## decider rows -/
+
+theorem cond_eval_plain (cd : Cond) (r g : SigMap) (hp : cd.first.isPlain = true) (hc : cd.usesEach = false) :
+    cd.eval r g none = cmp cd.op (cd.first.val r g) (cd.second.val r g) := by
+  have hrhs : cd.rhs r g none = cd.second.val r g := by
     unfold Cond.rhs
     split <;> simp_all
   unfold Cond.eval
-  rw [hrhs, v2, hop]
+  rw [hrhs]
   cases hfst : cd.first with
-  | const k =>
-    rw [hfst] at v1
-    simp only [Operand.val] at v1
-    simp [v1]
-  | ref r sel =>
-    cases r with
-    | sig sg =>
-      rw [hfst] at v1
-      simp only [Operand.val] at v1
-      simp [v1]
-    | each => rw [hfst] at h1; cases a <;> simp [matchOperand] at h1
-    | anything => rw [hfst] at h1; cases a <;> simp [matchOperand] at h1
-    | everything => rw [hfst] at h1; cases a <;> simp [matchOperand] at h1
+  | const k => simp [Operand.val]
+  | ref rf sel =>
+    cases rf with
+    | sig sg => simp [Operand.val]
+    | each => rw [hfst] at hp; simp [Operand.isPlain] at hp
+    | anything => rw [hfst] at hp; simp [Operand.isPlain] at hp
+    | everything => rw [hfst] at hp; simp [Operand.isPlain] at hp
 
-theorem sound_cmp (x : Ctx) (n e : Nat) (s : Sig) (op : CmpOp) (a b : Arg) (ty : Sig) (cd : Cond) (o : DOut)
-    (hnode : x.nodes[n]? = some (.cmp op a b ty)) (hbind : x.bind n = some (.ent e s))
-    (hkind : x.c.kind e = .decider { conds := [cd], outs := [o] })
-    (ih : ∀ m, m < n → Holds x.E x.nodes x.env x.bind m)
-    (ha : argBelow n a = true) (hb : argBelow n b = true) (hc : cd.usesEach = false) (hop : cd.op = op)
-    (ho : isConstOneOut o s = true)
-    (h1 : matchOperand x.c x.bind e cd.first a = true) (h2 : matchOperand x.c x.bind e cd.second b = true) :
-    Holds x.E x.nodes x.env x.bind n := by
-  obtain ⟨hn, hnd⟩ := kind_getD x.nodes n _ hnode
-  unfold Holds
-  rw [hbind]
-  show get (x.E e) s = nodeVal x.nodes x.env n
-  have hno : x.inp e = none := x.hagree.2 n e s hbind (by intro name ty' v hh; rw [hnode] at hh; cases hh)
-  rw [x.out_eq e hno, hkind]
-  show get (evalDecider _ _ _) s = _
-  unfold isConstOneOut at ho
-  simp only [Bool.and_eq_true, Bool.not_eq_true', beq_iff_eq] at ho
-  obtain ⟨⟨hsig, hcopy⟩, hk⟩ := ho
-  cases hos : o.sig with
-  | sig t =>
-    rw [hos] at hsig
-    have hts : t = s := by simpa using hsig
-    subst hts
-    rw [get_evalDecider_single cd o t hc hos, cond_eval_sound x e cd op a b n ih ha hb hc hop h1 h2,
-      nodeVal_eq x.nodes x.env n hn ty (by rw [hnd]; rfl), hnd]
-    simp only [evalNode, get_single, hcopy, hk, boolI,
-      argVal_prefix x.nodes x.env n (by omega) a ha, argVal_prefix x.nodes x.env n (by omega) b hb]
-    simp
-  | each => rw [hos] at hsig; cases hsig
-  | anything => rw [hos] at hsig; cases hsig
-  | everything => rw [hos] at hsig; cases hsig
+theorem go_and (r g : SigMap) : ∀ (cs : List Cond) (cur : Bool), cs.all (fun cd => cd.isAnd) = true →
+    evalConds.go r g none cs cur = (cur && cs.all (fun cd => cd.eval r g none)) := by
+  intro cs
+  induction cs with
+  | nil => intro cur _; simp [evalConds.go]
+  | cons cd rest ih =>
+    intro cur h
+    simp only [List.all_cons, Bool.and_eq_true] at h
+    simp only [evalConds.go, h.1, if_true, List.all_cons]
+    rw [ih _ h.2, Bool.and_assoc]
 
-theorem matchOperand_const_int (c : Circuit) (bind : Nat → Option Bind) (e : Nat) (k : I32) :
-    matchOperand c bind e (.const k) (.int k) = true := by simp [matchOperand]
+theorem go_or (r g : SigMap) : ∀ (cs : List Cond) (cur : Bool), cs.all (fun cd => !cd.isAnd) = true →
+    evalConds.go r g none cs cur = (cur || cs.any (fun cd => cd.eval r g none)) := by
+  intro cs
+  induction cs with
+  | nil => intro cur _; simp [evalConds.go]
+  | cons cd rest ih =>
+    intro cur h
+    simp only [List.all_cons, Bool.and_eq_true, Bool.not_eq_true'] at h
+    simp only [evalConds.go, h.1, Bool.false_eq_true, if_false, List.any_cons]
+    rw [ih _ (by simpa using h.2)]
 
-theorem sound_lnot (x : Ctx) (n e : Nat) (s : Sig) (a : Arg) (ty : Sig) (cd : Cond) (o : DOut)
-    (hnode : x.nodes[n]? = some (.lnot a ty)) (hbind : x.bind n = some (.ent e s))
-    (hkind : x.c.kind e = .decider { conds := [cd], outs := [o] })
-    (ih : ∀ m, m < n → Holds x.E x.nodes x.env x.bind m)
-    (ha : argBelow n a = true) (hc : cd.usesEach = false) (hop : cd.op = .eq)
-    (ho : isConstOneOut o s = true)
-    (h1 : matchOperand x.c x.bind e cd.first a = true) (h2 : cd.second = .const 0) :
-    Holds x.E x.nodes x.env x.bind n := by
-  obtain ⟨hn, hnd⟩ := kind_getD x.nodes n _ hnode
-  unfold Holds
-  rw [hbind]
-  show get (x.E e) s = nodeVal x.nodes x.env n
-  have hno : x.inp e = none := x.hagree.2 n e s hbind (by intro name ty' v hh; rw [hnode] at hh; cases hh)
-  rw [x.out_eq e hno, hkind]
-  show get (evalDecider _ _ _) s = _
-  unfold isConstOneOut at ho
-  simp only [Bool.and_eq_true, Bool.not_eq_true', beq_iff_eq] at ho
-  obtain ⟨⟨hsig, hcopy⟩, hk⟩ := ho
-  have h2' : matchOperand x.c x.bind e cd.second (.int 0) = true := by rw [h2]; exact matchOperand_const_int _ _ _ _
-  cases hos : o.sig with
-  | sig t =>
-    rw [hos] at hsig
-    have hts : t = s := by simpa using hsig
-    subst hts
-    rw [get_evalDecider_single cd o t hc hos, cond_eval_sound x e cd .eq a (.int 0) n ih ha rfl hc hop h1 h2',
-      nodeVal_eq x.nodes x.env n hn ty (by rw [hnd]; rfl), hnd]
-    simp only [evalNode, get_single, hcopy, hk, boolI, argVal_prefix x.nodes x.env n (by omega) a ha]
-    simp [cmp, argVal]
-  | each => rw [hos] at hsig; cases hsig
-  | anything => rw [hos] at hsig; cases hsig
-  | everything => rw [hos] at hsig; cases hsig
+theorem evalConds_and (cs : List Cond) (r g : SigMap) (hne : cs ≠ []) (h : cs.tail.all (fun cd => cd.isAnd) = true) :
+    evalConds cs r g none = cs.all (fun cd => cd.eval r g none) := by
+  cases cs with
+  | nil => exact absurd rfl hne
+  | cons cd rest =>
+    simp only [List.tail_cons] at h
+    simp only [evalConds, List.all_cons]
+    exact go_and r g rest _ h
 
-theorem sound_proj (x : Ctx) (n e : Nat) (s : Sig) (a : Arg) (ty : Sig) (cfg : ArithCfg)
-    (hnode : x.nodes[n]? = some (.proj a ty)) (hbind : x.bind n = some (.ent e s))
-    (hkind : x.c.kind e = .arith cfg)
-    (ih : ∀ m, m < n → Holds x.E x.nodes x.env x.bind m)
-    (ha : argBelow n a = true) (hop : cfg.op = .add)
-    (hf : cfg.first.isEach = false) (hs : cfg.second.isEach = false) (hout : cfg.out = some (.sig s))
-    (h1 : matchOperand x.c x.bind e cfg.first a = true) (h2 : cfg.second = .const 0) :
-    Holds x.E x.nodes x.env x.bind n := by
-  obtain ⟨hn, hnd⟩ := kind_getD x.nodes n _ hnode
-  unfold Holds
-  rw [hbind]
-  show get (x.E e) s = nodeVal x.nodes x.env n
-  have hno : x.inp e = none := x.hagree.2 n e s hbind (by intro name ty' v hh; rw [hnode] at hh; cases hh)
-  rw [x.out_eq e hno, hkind]
-  show get (evalArith cfg _ _) s = _
-  rw [get_evalArith_scalar cfg s hf hs hout, if_pos rfl,
-    matchOperand_sound x.c x.E x.emits x.nodes x.env x.bind e cfg.first a n ha ih h1,
-    nodeVal_eq x.nodes x.env n hn ty (by rw [hnd]; rfl), hnd, h2, hop]
-  simp only [evalNode, get_single, Operand.val, argVal_prefix x.nodes x.env n (by omega) a ha]
-  simp [alu]
+theorem evalConds_or (cs : List Cond) (r g : SigMap) (hne : cs ≠ []) (h : cs.tail.all (fun cd => !cd.isAnd) = true) :
+    evalConds cs r g none = cs.any (fun cd => cd.eval r g none) := by
+  cases cs with
+  | nil => exact absurd rfl hne
+  | cons cd rest =>
+    simp only [List.tail_cons] at h
+    simp only [evalConds, List.any_cons]
+    exact go_or r g rest _ h
 
-theorem sound_input (x : Ctx) (n e : Nat) (s : Sig) (name ty : Sig) (v : I32)
-    (hnode : x.nodes[n]? = some (.input name ty v)) (hbind : x.bind n = some (.ent e s)) :
-    Holds x.E x.nodes x.env x.bind n := by
-  obtain ⟨hn, hnd⟩ := kind_getD x.nodes n _ hnode
-  unfold Holds
-  rw [hbind]
-  show get (x.E e) s = nodeVal x.nodes x.env n
-  have hov := x.hagree.1 n name ty v e s hnode hbind
-  have : x.E e = [(s, (x.env.input name).getD v)] := by
-    rw [← x.hfix e]; unfold Circuit.evalEnt; rw [hov]
-  rw [this, nodeVal_eq x.nodes x.env n hn ty (by rw [hnd]; rfl), hnd]
-  simp [evalNode]
+/-- a decider without `each` rows and with one plain output -/
+theorem get_evalDecider_out1 (conds : List Cond) (o : DOut) (t : Sig) (hc : conds.any Cond.usesEach = false)
+    (ho : o.sig = .sig t) (r g : SigMap) (s : Sig) :
+    get (evalDecider { conds := conds, outs := [o] } r g) s =
+      if evalConds conds r g none then (if t = s then (if o.copy then get (selIn o.sel r g) t else o.const) else 0) else 0 := by
+  simp only [evalDecider, hc, Bool.false_eq_true, if_false]
+  by_cases h : evalConds conds r g none
+  · simp [h, DOut.emit, ho]
+  · simp [h]
 
-theorem sound_const_ent (x : Ctx) (n e : Nat) (s : Sig) (ty : Sig) (v : I32)
-    (hnode : x.nodes[n]? = some (.const ty v)) (hbind : x.bind n = some (.ent e s))
-    (hkind : x.c.kind e = .const [(s, v)]) :
-    Holds x.E x.nodes x.env x.bind n := by
-  obtain ⟨hn, hnd⟩ := kind_getD x.nodes n _ hnode
-  unfold Holds
-  rw [hbind]
-  show get (x.E e) s = nodeVal x.nodes x.env n
-  have hno : x.inp e = none := x.hagree.2 n e s hbind (by intro name ty' v' hh; rw [hnode] at hh; cases hh)
-  rw [x.out_eq e hno, hkind, nodeVal_eq x.nodes x.env n hn ty (by rw [hnd]; rfl), hnd]
-  simp [evalNode]
+theorem condsMatch_sound (x : Ctx) (n e : Nat) (ih : ∀ m, m < n → Holds x.E x.nodes x.env x.bind m) :
+    ∀ (conds : List Cond) (cs : List (CmpOp × Arg × Arg)),
+      cs.all (fun (_, a, b) => argBelow n a && argBelow n b) = true →
+      condsMatch x.c x.nodes x.bind e conds cs = true →
+      conds.any Cond.usesEach = false ∧
+      conds.map (fun cd => cd.eval (x.c.readR x.E e) (x.c.readG x.E e) none) =
+        cs.map (fun (op, a, b) => cmp op (x.av a) (x.av b)) := by
+  intro conds
+  induction conds with
+  | nil =>
+    intro cs _ h
+    cases cs with
+    | nil => simp
+    | cons _ _ => simp [condsMatch] at h
+  | cons cd rest ihc =>
+    intro cs hb h
+    cases cs with
+    | nil => simp [condsMatch] at h
+    | cons c1 cs' =>
+      obtain ⟨op, a, b⟩ := c1
+      simp only [condsMatch, Bool.and_eq_true, Bool.not_eq_true', beq_iff_eq] at h
+      obtain ⟨⟨⟨⟨hu, hop⟩, h1⟩, h2⟩, hrest⟩ := h
+      simp only [List.all_cons, Bool.and_eq_true] at hb
+      obtain ⟨⟨hba, hbb⟩, hb'⟩ := hb
+      obtain ⟨hu', hmap⟩ := ihc cs' hb' hrest
+      refine ⟨by simp [hu, hu'], ?_⟩
+      simp only [List.map_cons, hmap]
+      congr 1
+      rw [cond_eval_plain cd _ _ (matchOperand_plain _ _ _ _ _ _ h1) hu,
+        matchOperand_sound x e cd.first a n hba ih h1, matchOperand_sound x e cd.second b n hbb ih h2, hop]
 
-theorem sound_const_konst (x : Ctx) (n : Nat) (ty : Sig) (v : I32)
-    (hnode : x.nodes[n]? = some (.const ty v)) (hbind : x.bind n = some (.konst v)) :
-    Holds x.E x.nodes x.env x.bind n := by
-  obtain ⟨hn, hnd⟩ := kind_getD x.nodes n _ hnode
-  unfold Holds
-  rw [hbind]
-  show nodeVal x.nodes x.env n = v
-  rw [nodeVal_eq x.nodes x.env n hn ty (by rw [hnd]; rfl), hnd]
-  simp [evalNode]
+theorem all_map_eq {α β} (l1 : List α) (l2 : List β) (f : α → Bool) (g : β → Bool) (h : l1.map f = l2.map g) :
+    l1.all f = l2.all g := by
+  have : l1.all f = (l1.map f).all id := by simp [List.all_map]
+  rw [this, h]; simp [List.all_map]
 
-theorem sound_gate (x : Ctx) (n e : Nat) (s : Sig) (op : CmpOp) (a b v : Arg) (ty : Sig) (cd : Cond) (o : DOut)
-    (hnode : x.nodes[n]? = some (.gate op a b v ty)) (hbind : x.bind n = some (.ent e s))
-    (hkind : x.c.kind e = .decider { conds := [cd], outs := [o] })
-    (ih : ∀ m, m < n → Holds x.E x.nodes x.env x.bind m)
-    (ha : argBelow n a = true) (hb : argBelow n b = true) (hv : argBelow n v = true)
-    (hc : cd.usesEach = false) (hop : cd.op = op)
-    (h1 : matchOperand x.c x.bind e cd.first a = true) (h2 : matchOperand x.c x.bind e cd.second b = true)
-    (hos : o.sig = .sig s)
-    (hval : (if o.copy then get (selIn o.sel (x.c.readR x.E e) (x.c.readG x.E e)) s else o.const) =
-        argVal x.nodes (evalNodes x.nodes x.env) v) :
-    Holds x.E x.nodes x.env x.bind n := by
-  obtain ⟨hn, hnd⟩ := kind_getD x.nodes n _ hnode
-  unfold Holds
-  rw [hbind]
-  show get (x.E e) s = nodeVal x.nodes x.env n
-  have hno : x.inp e = none := x.hagree.2 n e s hbind (by intro name ty' v' hh; rw [hnode] at hh; cases hh)
-  rw [x.out_eq e hno, hkind]
-  show get (evalDecider _ _ _) s = _
-  rw [get_evalDecider_single cd o s hc hos, cond_eval_sound x e cd op a b n ih ha hb hc hop h1 h2, if_pos rfl, hval,
-    nodeVal_eq x.nodes x.env n hn ty (by rw [hnd]; rfl), hnd]
-  simp only [evalNode, get_single, argVal_prefix x.nodes x.env n (by omega) a ha,
-    argVal_prefix x.nodes x.env n (by omega) b hb, argVal_prefix x.nodes x.env n (by omega) v hv]
-  simp
+theorem any_map_eq {α β} (l1 : List α) (l2 : List β) (f : α → Bool) (g : β → Bool) (h : l1.map f = l2.map g) :
+    l1.any f = l2.any g := by
+  have : l1.any f = (l1.map f).any id := by simp [List.any_map]
+  rw [this, h]; simp [List.any_map]
+
+theorem isConstOneOut_spec (o : DOut) (s : Sig) (h : isConstOneOut o s = true) :
+    o.sig = .sig s ∧ o.copy = false ∧ o.const = 1 := by
+  unfold isConstOneOut at h
+  simp only [Bool.and_eq_true, Bool.not_eq_true', beq_iff_eq] at h
+  obtain ⟨⟨hsig, hcopy⟩, hk⟩ := h
+  refine ⟨?_, hcopy, hk⟩
+  cases hos : o.sig <;> simp_all
+
+theorem outIs_spec (o : Option SigRef) (s : Sig) (h : outIs o s = true) : o = some (.sig s) := by
+  unfold outIs at h
+  cases o with
+  | none => simp at h
+  | some r => cases r <;> simp_all
+
+theorem dout_sig_eq (r : SigRef) (s : Sig)
+    (h : (match r with | .sig t => t == s | _ => false) = true) : r = .sig s := by
+  cases r <;> simp_all
+
+theorem decider_shape (conds : List Cond) (outs : List DOut) (P : Cond → DOut → Bool)
+    (h : (match conds, outs with | [cd], [o] => P cd o | _, _ => false) = true) :
+    ∃ cd o, conds = [cd] ∧ outs = [o] ∧ P cd o = true := by
+  match conds, outs, h with
+  | [cd], [o], h => exact ⟨cd, o, rfl, rfl, h⟩
+  | [], _, h => simp at h
+  | _ :: _ :: _, _, h => simp at h
+  | [_], [], h => simp at h
+  | [_], _ :: _ :: _, h => simp at h
+
+theorem outs_shape (outs : List DOut) (P : DOut → Bool)
+    (h : (match outs with | [o] => P o | _ => false) = true) : ∃ o, outs = [o] ∧ P o = true := by
+  match outs, h with
+  | [o], h => exact ⟨o, rfl, h⟩
+  | [], h => simp at h
+  | _ :: _ :: _, h => simp at h
+
+/-! ## an entity computes a value expression -/
+
+theorem entIs_sound (x : Ctx) (n : Nat) (ih : ∀ m, m < n → Holds x.E x.nodes x.env x.bind m) :
+    ∀ (v : VExpr) (e : Nat) (s : Sig), v.under n = true → entIs x.c x.nodes x.bind v e s = true →
+      get (x.E e) s = v.val x.av := by
+  intro v
+  induction v with
+  | arg a => intro e s _ h; simp [entIs] at h
+  | alu op y z ihy ihz =>
+    intro e s hu h
+    simp only [VExpr.under, Bool.and_eq_true] at hu
+    simp only [entIs] at h
+    cases hk : x.c.kind e with
+    | arith cfg =>
+      simp only [hk, Bool.and_eq_true, Bool.not_eq_true', beq_iff_eq] at h
+      obtain ⟨⟨⟨⟨⟨hop, hf⟩, hs⟩, hout⟩, h1⟩, h2⟩ := h
+      rw [x.out_eq e (x.inp_none_of_arith e cfg hk), hk]
+      show get (evalArith cfg _ _) s = _
+      rw [get_evalArith_scalar cfg s hf hs (outIs_spec _ _ hout), if_pos rfl,
+        opIs_sound x n ih _ y e cfg.first (fun p t hp => ihy p t hu.1 hp) hu.1 h1,
+        opIs_sound x n ih _ z e cfg.second (fun p t hp => ihz p t hu.2 hp) hu.2 h2, hop]
+      rfl
+    | _ => simp [hk] at h
+  | cmpB op y z ihy ihz =>
+    intro e s hu h
+    simp only [VExpr.under, Bool.and_eq_true] at hu
+    simp only [entIs] at h
+    cases hk : x.c.kind e with
+    | decider cfg =>
+      simp only [hk] at h
+      obtain ⟨cd, o, hcs, hos, hP⟩ := decider_shape cfg.conds cfg.outs _ h
+      simp only [Bool.and_eq_true, Bool.not_eq_true', beq_iff_eq] at hP
+      obtain ⟨⟨⟨⟨hu', hop⟩, ho⟩, h1⟩, h2⟩ := hP
+      obtain ⟨hsig, hcopy, hone⟩ := isConstOneOut_spec o s ho
+      have hcfg : cfg = { conds := [cd], outs := [o] } := by cases cfg; simp_all
+      rw [x.out_eq e (x.inp_none_of_decider e cfg hk), hk, hcfg]
+      show get (evalDecider _ _ _) s = _
+      rw [get_evalDecider_single cd o s hu' hsig, cond_eval_plain cd _ _ (opIs_plain _ _ _ _ _ _ _ h1) hu',
+        opIs_sound x n ih _ y e cd.first (fun p t hp => ihy p t hu.1 hp) hu.1 h1,
+        opIs_sound x n ih _ z e cd.second (fun p t hp => ihz p t hu.2 hp) hu.2 h2, hop]
+      simp [VExpr.val, boolI, hcopy, hone]
+    | _ => simp [hk] at h
+  | gate op y z w ihy ihz =>
+    intro e s hu h
+    simp only [VExpr.under, Bool.and_eq_true] at hu
+    obtain ⟨⟨huy, huz⟩, huw⟩ := hu
+    simp only [entIs] at h
+    cases hk : x.c.kind e with
+    | decider cfg =>
+      simp only [hk] at h
+      obtain ⟨cd, o, hcs, hos, hP⟩ := decider_shape cfg.conds cfg.outs _ h
+      simp only [Bool.and_eq_true, Bool.not_eq_true', beq_iff_eq] at hP
+      obtain ⟨⟨⟨⟨⟨hu', hop⟩, h1⟩, h2⟩, hsig⟩, hv⟩ := hP
+      have hsig' := dout_sig_eq _ _ hsig
+      have hcfg : cfg = { conds := [cd], outs := [o] } := by cases cfg; simp_all
+      have hval : (if o.copy then get (selIn o.sel (x.c.readR x.E e) (x.c.readG x.E e)) s else o.const) = x.av w := by
+        cases w with
+        | int k =>
+          simp only [Bool.and_eq_true, Bool.not_eq_true', beq_iff_eq] at hv
+          simp [hv.1, hv.2, Ctx.av, argVal]
+        | node m =>
+          have hm : m < n := by simpa [argBelow] using huw
+          have hh := ih m hm
+          unfold Holds at hh
+          simp only at hv
+          cases hb : x.bind m with
+          | none => simp [hb] at hv
+          | some b =>
+            cases b with
+            | konst k =>
+              rw [hb] at hh
+              simp only [hb, Bool.and_eq_true, Bool.not_eq_true', beq_iff_eq] at hv
+              simp only [hv.1, Bool.false_eq_true, if_false, hv.2]
+              exact hh.symm
+            | ent ev sv =>
+              rw [hb] at hh
+              simp only [hb, Bool.and_eq_true, beq_iff_eq] at hv
+              obtain ⟨⟨hcopy, hsv⟩, hiso⟩ := hv
+              subst hsv
+              simp only [hcopy, if_true]
+              rw [read_isolated x.c x.E x.emits e o.sel sv ev hiso]
+              exact hh
+      rw [x.out_eq e (x.inp_none_of_decider e cfg hk), hk, hcfg]
+      show get (evalDecider _ _ _) s = _
+      rw [get_evalDecider_single cd o s hu' hsig', cond_eval_plain cd _ _ (opIs_plain _ _ _ _ _ _ _ h1) hu',
+        opIs_sound x n ih _ y e cd.first (fun p t hp => ihy p t huy hp) huy h1,
+        opIs_sound x n ih _ z e cd.second (fun p t hp => ihz p t huz hp) huz h2, hop, if_pos rfl, hval]
+      rfl
+    | _ => simp [hk] at h
+  | allB cs =>
+    intro e s hu h
+    simp only [VExpr.under] at hu
+    simp only [entIs] at h
+    cases hk : x.c.kind e with
+    | decider cfg =>
+      simp only [hk] at h
+      obtain ⟨o, hos, hP⟩ := outs_shape cfg.outs _ h
+      simp only [Bool.and_eq_true, Bool.not_eq_true'] at hP
+      obtain ⟨⟨⟨ho, hne⟩, htail⟩, hm⟩ := hP
+      obtain ⟨hsig, hcopy, hone⟩ := isConstOneOut_spec o s ho
+      obtain ⟨hany, hmap⟩ := condsMatch_sound x n e ih cfg.conds cs hu hm
+      have hcne : cfg.conds ≠ [] := by
+        intro hc
+        rw [hc] at hmap
+        cases cs with
+        | nil => simp at hne
+        | cons _ _ => simp at hmap
+      have hcfg : cfg = { conds := cfg.conds, outs := [o] } := by cases cfg; simp_all
+      rw [x.out_eq e (x.inp_none_of_decider e cfg hk), hk, hcfg]
+      show get (evalDecider _ _ _) s = _
+      rw [get_evalDecider_out1 cfg.conds o s hany hsig, evalConds_and cfg.conds _ _ hcne htail,
+        all_map_eq _ _ _ _ hmap]
+      simp [VExpr.val, boolI, hcopy, hone]
+    | _ => simp [hk] at h
+  | anyB cs =>
+    intro e s hu h
+    simp only [VExpr.under] at hu
+    simp only [entIs] at h
+    cases hk : x.c.kind e with
+    | decider cfg =>
+      simp only [hk] at h
+      obtain ⟨o, hos, hP⟩ := outs_shape cfg.outs _ h
+      simp only [Bool.and_eq_true, Bool.not_eq_true'] at hP
+      obtain ⟨⟨⟨ho, hne⟩, htail⟩, hm⟩ := hP
+      obtain ⟨hsig, hcopy, hone⟩ := isConstOneOut_spec o s ho
+      obtain ⟨hany, hmap⟩ := condsMatch_sound x n e ih cfg.conds cs hu hm
+      have hcne : cfg.conds ≠ [] := by
+        intro hc
+        rw [hc] at hmap
+        cases cs with
+        | nil => simp at hne
+        | cons _ _ => simp at hmap
+      have hcfg : cfg = { conds := cfg.conds, outs := [o] } := by cases cfg; simp_all
+      rw [x.out_eq e (x.inp_none_of_decider e cfg hk), hk, hcfg]
+      show get (evalDecider _ _ _) s = _
+      rw [get_evalDecider_out1 cfg.conds o s hany hsig, evalConds_or cfg.conds _ _ hcne htail,
+        any_map_eq _ _ _ _ hmap]
+      simp [VExpr.val, boolI, hcopy, hone]
+    | _ => simp [hk] at h
+
+
+/-! ## what a Core node denotes, in terms of its arguments -/
+
+section NodeVal
+variable (nodes : Array CNode) (env : Env)
+
+local notation "AV" => fun a => argVal nodes (evalNodes nodes env) a
+
+theorem nodeVal_arith (n : Nat) (hn : n < nodes.size) (op : ArithOp) (a b : Arg) (ty : Sig)
+    (hnd : nodes[n] = .arith op a b ty) (ha : argBelow n a = true) (hb : argBelow n b = true) :
+    nodeVal nodes env n = alu op (argVal nodes (evalNodes nodes env) a) (argVal nodes (evalNodes nodes env) b) := by
+  rw [nodeVal_eq nodes env n hn ty (by rw [hnd]; rfl), hnd]
+  simp [evalNode, argVal_prefix nodes env n (by omega) a ha, argVal_prefix nodes env n (by omega) b hb]
+
+theorem nodeVal_cmp (n : Nat) (hn : n < nodes.size) (op : CmpOp) (a b : Arg) (ty : Sig)
+    (hnd : nodes[n] = .cmp op a b ty) (ha : argBelow n a = true) (hb : argBelow n b = true) :
+    nodeVal nodes env n = boolI (cmp op (argVal nodes (evalNodes nodes env) a) (argVal nodes (evalNodes nodes env) b)) := by
+  rw [nodeVal_eq nodes env n hn ty (by rw [hnd]; rfl), hnd]
+  simp [evalNode, argVal_prefix nodes env n (by omega) a ha, argVal_prefix nodes env n (by omega) b hb]
+
+theorem nodeVal_land (n : Nat) (hn : n < nodes.size) (a b : Arg) (ty : Sig)
+    (hnd : nodes[n] = .land a b ty) (ha : argBelow n a = true) (hb : argBelow n b = true) :
+    nodeVal nodes env n =
+      boolI (argVal nodes (evalNodes nodes env) a != 0 && argVal nodes (evalNodes nodes env) b != 0) := by
+  rw [nodeVal_eq nodes env n hn ty (by rw [hnd]; rfl), hnd]
+  simp [evalNode, argVal_prefix nodes env n (by omega) a ha, argVal_prefix nodes env n (by omega) b hb]
+
+theorem nodeVal_lor (n : Nat) (hn : n < nodes.size) (a b : Arg) (ty : Sig)
+    (hnd : nodes[n] = .lor a b ty) (ha : argBelow n a = true) (hb : argBelow n b = true) :
+    nodeVal nodes env n =
+      boolI (argVal nodes (evalNodes nodes env) a != 0 || argVal nodes (evalNodes nodes env) b != 0) := by
+  rw [nodeVal_eq nodes env n hn ty (by rw [hnd]; rfl), hnd]
+  simp [evalNode, argVal_prefix nodes env n (by omega) a ha, argVal_prefix nodes env n (by omega) b hb]
+
+theorem nodeVal_lnot (n : Nat) (hn : n < nodes.size) (a : Arg) (ty : Sig)
+    (hnd : nodes[n] = .lnot a ty) (ha : argBelow n a = true) :
+    nodeVal nodes env n = boolI (argVal nodes (evalNodes nodes env) a == 0) := by
+  rw [nodeVal_eq nodes env n hn ty (by rw [hnd]; rfl), hnd]
+  simp [evalNode, argVal_prefix nodes env n (by omega) a ha]
+
+theorem nodeVal_proj (n : Nat) (hn : n < nodes.size) (a : Arg) (ty : Sig)
+    (hnd : nodes[n] = .proj a ty) (ha : argBelow n a = true) :
+    nodeVal nodes env n = argVal nodes (evalNodes nodes env) a := by
+  rw [nodeVal_eq nodes env n hn ty (by rw [hnd]; rfl), hnd]
+  simp [evalNode, argVal_prefix nodes env n (by omega) a ha]
+
+theorem nodeVal_gate (n : Nat) (hn : n < nodes.size) (op : CmpOp) (a b v : Arg) (ty : Sig)
+    (hnd : nodes[n] = .gate op a b v ty) (ha : argBelow n a = true) (hb : argBelow n b = true) (hv : argBelow n v = true) :
+    nodeVal nodes env n =
+      if cmp op (argVal nodes (evalNodes nodes env) a) (argVal nodes (evalNodes nodes env) b)
+      then argVal nodes (evalNodes nodes env) v else 0 := by
+  rw [nodeVal_eq nodes env n hn ty (by rw [hnd]; rfl), hnd]
+  simp [evalNode, argVal_prefix nodes env n (by omega) a ha, argVal_prefix nodes env n (by omega) b hb,
+    argVal_prefix nodes env n (by omega) v hv]
+
+end NodeVal
 
 /-- values of comparison / logical nodes are 0 or 1 -/
 theorem bool_nodeVal (nodes : Array CNode) (env : Env) (m : Nat) (h : isBoolNode nodes m = true) :
@@ -565,55 +831,285 @@ theorem bool_argVal (nodes : Array CNode) (env : Env) (a : Arg) (h : isBoolArg n
     simpa [argVal] using h
   | node m => exact bool_nodeVal nodes env m h
 
-theorem sound_land_bool (x : Ctx) (n e : Nat) (s : Sig) (a b : Arg) (ty : Sig) (cfg : ArithCfg)
-    (hnode : x.nodes[n]? = some (.land a b ty)) (hbind : x.bind n = some (.ent e s))
-    (hkind : x.c.kind e = .arith cfg)
-    (ih : ∀ m, m < n → Holds x.E x.nodes x.env x.bind m)
-    (ha : argBelow n a = true) (hb : argBelow n b = true)
-    (hba : isBoolArg x.nodes a = true) (hbb : isBoolArg x.nodes b = true) (hop : cfg.op = .mul)
-    (hf : cfg.first.isEach = false) (hs : cfg.second.isEach = false) (hout : cfg.out = some (.sig s))
-    (h1 : matchOperand x.c x.bind e cfg.first a = true) (h2 : matchOperand x.c x.bind e cfg.second b = true) :
+@[simp] theorem boolI_ne_zero (b : Bool) : (boolI b != 0) = b := by cases b <;> decide
+@[simp] theorem boolI_ne_zero' (b : Bool) : (boolI b != 0#32) = b := by cases b <;> decide
+
+/-- a homogeneous chain denotes the conjunction / disjunction of its comparisons -/
+theorem chain_sound (nodes : Array CNode) (env : Env) (isAnd : Bool) :
+    ∀ (f m : Nat) (l : List (CmpOp × Arg × Arg)), chain nodes isAnd f m = some l → m < nodes.size →
+      nodeVal nodes env m =
+        boolI (if isAnd then l.all (fun (op, a, b) => cmp op (argVal nodes (evalNodes nodes env) a) (argVal nodes (evalNodes nodes env) b))
+               else l.any (fun (op, a, b) => cmp op (argVal nodes (evalNodes nodes env) a) (argVal nodes (evalNodes nodes env) b))) := by
+  intro f
+  induction f with
+  | zero => intro m l h; simp [chain] at h
+  | succ f ih =>
+    intro m l h hm
+    have hnd : nodes[m]? = some nodes[m] := Array.getElem?_eq_getElem hm
+    unfold chain at h
+    rw [hnd] at h
+    cases hk : nodes[m] with
+    | cmp op a b ty =>
+      rw [hk] at h
+      simp only at h
+      split at h
+      · rename_i hb
+        simp only [Bool.and_eq_true] at hb
+        injection h with h
+        subst h
+        rw [nodeVal_cmp nodes env m hm op a b ty hk hb.1 hb.2]
+        cases isAnd <;> simp
+      · cases h
+    | land a b ty =>
+      rw [hk] at h
+      cases a with
+      | int _ => simp at h
+      | node p =>
+        cases b with
+        | int _ => simp at h
+        | node q =>
+          simp only at h
+          split at h
+          · rename_i hc
+            simp only [Bool.and_eq_true, decide_eq_true_eq] at hc
+            obtain ⟨⟨hand, hp⟩, hq⟩ := hc
+            subst hand
+            cases h1 : chain nodes true f p with
+            | none => simp [h1] at h
+            | some l1 =>
+              cases h2 : chain nodes true f q with
+              | none => simp [h1, h2] at h
+              | some l2 =>
+                simp only [h1, h2] at h
+                injection h with h
+                subst h
+                have e1 := ih p l1 h1 (by omega)
+                have e2 := ih q l2 h2 (by omega)
+                unfold nodeVal at e1 e2
+                rw [nodeVal_land nodes env m hm (.node p) (.node q) ty hk (by simp [argBelow, hp]) (by simp [argBelow, hq]),
+                  e1, e2]
+                simp [boolI_ne_zero, List.all_append]
+          · cases h
+    | lor a b ty =>
+      rw [hk] at h
+      cases a with
+      | int _ => simp at h
+      | node p =>
+        cases b with
+        | int _ => simp at h
+        | node q =>
+          simp only at h
+          split at h
+          · rename_i hc
+            simp only [Bool.and_eq_true, decide_eq_true_eq, Bool.not_eq_true'] at hc
+            obtain ⟨⟨hand, hp⟩, hq⟩ := hc
+            subst hand
+            cases h1 : chain nodes false f p with
+            | none => simp [h1] at h
+            | some l1 =>
+              cases h2 : chain nodes false f q with
+              | none => simp [h1, h2] at h
+              | some l2 =>
+                simp only [h1, h2] at h
+                injection h with h
+                subst h
+                have e1 := ih p l1 h1 (by omega)
+                have e2 := ih q l2 h2 (by omega)
+                unfold nodeVal at e1 e2
+                rw [nodeVal_lor nodes env m hm (.node p) (.node q) ty hk (by simp [argBelow, hp]) (by simp [argBelow, hq]),
+                  e1, e2]
+                simp [boolI_ne_zero, List.any_append]
+          · cases h
+    | _ => rw [hk] at h; simp at h
+
+theorem and_ne0 (a b : I32) : alu .mul (boolI (cmp .ne a 0)) (boolI (cmp .ne b 0)) = boolI (a != 0 && b != 0) := by
+  have : ∀ p q : Bool, alu .mul (boolI p) (boolI q) = boolI (p && q) := by intro p q; cases p <;> cases q <;> decide
+  simp only [cmp]
+  exact this _ _
+
+theorem or_ne0 (a b : I32) :
+    boolI (cmp .gt (alu .add (boolI (cmp .ne a 0)) (boolI (cmp .ne b 0))) 0) = boolI (a != 0 || b != 0) := by
+  have : ∀ p q : Bool, boolI (cmp .gt (alu .add (boolI p) (boolI q)) 0) = boolI (p || q) := by
+    intro p q; cases p <;> cases q <;> decide
+  simp only [cmp]
+  exact this _ _
+
+/-- every candidate lowering of node `m` denotes the node's value -/
+theorem lowerings_sound (nodes : Array CNode) (env : Env) :
+    ∀ (f m : Nat) (v : VExpr), v ∈ lowerings nodes f m → m < nodes.size →
+      v.val (fun a => argVal nodes (evalNodes nodes env) a) = nodeVal nodes env m := by
+  intro f
+  induction f with
+  | zero => intro m v h; simp [lowerings] at h
+  | succ f ih =>
+    intro m v h hm
+    have hnd : nodes[m]? = some nodes[m] := Array.getElem?_eq_getElem hm
+    unfold lowerings at h
+    rw [hnd] at h
+    simp only at h
+    split at h
+    · simp at h
+    · rename_i hargs
+      have hargs : nodes[m].argsBelow m = true := by simpa using hargs
+      cases hk : nodes[m] with
+      | arith op a b ty =>
+        rw [hk] at h hargs
+        simp only [CNode.argsBelow, Bool.and_eq_true] at hargs
+        have hv := nodeVal_arith nodes env m hm op a b ty hk hargs.1 hargs.2
+        simp only [List.mem_cons] at h
+        rcases h with h | h
+        · subst h; simp [VExpr.val, hv]
+        · split at h
+          · rename_i k
+            split at h
+            · rename_i hk0
+              have hk0 : k = 0 := by simpa using hk0
+              subst hk0
+              simp only [List.mem_cons, List.not_mem_nil, or_false] at h
+              subst h
+              simp only [VExpr.val, hv, argVal]
+              exact rule_neg _
+            · simp at h
+          · simp at h
+      | cmp op a b ty =>
+        rw [hk] at h hargs
+        simp only [CNode.argsBelow, Bool.and_eq_true] at hargs
+        simp only [List.mem_cons, List.not_mem_nil, or_false] at h
+        subst h
+        simp [VExpr.val, nodeVal_cmp nodes env m hm op a b ty hk hargs.1 hargs.2]
+      | lnot a ty =>
+        rw [hk] at h hargs
+        simp only [CNode.argsBelow] at hargs
+        simp only [List.mem_cons, List.not_mem_nil, or_false] at h
+        subst h
+        simp [VExpr.val, nodeVal_lnot nodes env m hm a ty hk hargs, cmp, argVal]
+      | gate op a b w ty =>
+        rw [hk] at h hargs
+        simp only [CNode.argsBelow, Bool.and_eq_true] at hargs
+        simp only [List.mem_cons, List.not_mem_nil, or_false] at h
+        subst h
+        simp only [VExpr.val]
+        rw [nodeVal_gate nodes env m hm op a b w ty hk hargs.1.1 hargs.1.2 hargs.2]
+        split <;> rename_i hc <;> simp [hc]
+      | proj a ty =>
+        rw [hk] at h hargs
+        simp only [CNode.argsBelow] at hargs
+        have hv := nodeVal_proj nodes env m hm a ty hk hargs
+        simp only [List.mem_cons] at h
+        rcases h with h | h
+        · subst h; simp [VExpr.val, hv, alu, argVal]
+        · cases a with
+          | int k => simp at h
+          | node p =>
+            have hp : p < m := by simpa [argBelow] using hargs
+            simp only at h
+            rw [ih p v h (by omega), hv]
+            rfl
+      | land a b ty =>
+        rw [hk] at h hargs
+        simp only [CNode.argsBelow, Bool.and_eq_true] at hargs
+        have hv := nodeVal_land nodes env m hm a b ty hk hargs.1 hargs.2
+        simp only [List.mem_append] at h
+        rcases h with (h | h) | h
+        · split at h
+          · rename_i hb
+            simp only [Bool.and_eq_true] at hb
+            simp only [List.mem_cons, List.not_mem_nil, or_false] at h
+            subst h
+            simp only [VExpr.val, hv]
+            exact rule_and_bool _ _ (bool_argVal nodes env a hb.1) (bool_argVal nodes env b hb.2)
+          · simp at h
+        · simp only [List.mem_cons, List.not_mem_nil, or_false] at h
+          subst h
+          simp only [VExpr.val, ne0, hv, argVal]
+          exact and_ne0 _ _
+        · cases hc : chain nodes true (f + 1) m with
+          | none => simp [hc] at h
+          | some l =>
+            simp only [hc, List.mem_cons, List.not_mem_nil, or_false] at h
+            subst h
+            have := chain_sound nodes env true (f + 1) m l hc hm
+            simp only [if_true] at this
+            simp only [VExpr.val, this]
+      | lor a b ty =>
+        rw [hk] at h hargs
+        simp only [CNode.argsBelow, Bool.and_eq_true] at hargs
+        have hv := nodeVal_lor nodes env m hm a b ty hk hargs.1 hargs.2
+        simp only [List.mem_append] at h
+        rcases h with (h | h) | h
+        · split at h
+          · rename_i hb
+            simp only [Bool.and_eq_true] at hb
+            simp only [List.mem_cons, List.not_mem_nil, or_false] at h
+            subst h
+            simp only [VExpr.val, hv, argVal]
+            exact rule_or_bool _ _ (bool_argVal nodes env a hb.1) (bool_argVal nodes env b hb.2)
+          · simp at h
+        · simp only [List.mem_cons, List.not_mem_nil, or_false] at h
+          subst h
+          simp only [VExpr.val, ne0, hv, argVal]
+          exact or_ne0 _ _
+        · cases hc : chain nodes false (f + 1) m with
+          | none => simp [hc] at h
+          | some l =>
+            simp only [hc, List.mem_cons, List.not_mem_nil, or_false] at h
+            subst h
+            have := chain_sound nodes env false (f + 1) m l hc hm
+            simp only [Bool.false_eq_true, if_false] at this
+            simp only [VExpr.val, this]
+      | _ => rw [hk] at h; simp at h
+
+/-! ## the per-node theorem and its closure over the program -/
+
+theorem sound_input (x : Ctx) (n e : Nat) (s : Sig) (name ty : Sig) (v : I32)
+    (hnode : x.nodes[n]? = some (.input name ty v)) (hbind : x.bind n = some (.ent e s)) :
     Holds x.E x.nodes x.env x.bind n := by
   obtain ⟨hn, hnd⟩ := kind_getD x.nodes n _ hnode
   unfold Holds
   rw [hbind]
   show get (x.E e) s = nodeVal x.nodes x.env n
-  have hno : x.inp e = none := x.hagree.2 n e s hbind (by intro name ty' v hh; rw [hnode] at hh; cases hh)
-  rw [x.out_eq e hno, hkind]
-  show get (evalArith cfg _ _) s = _
-  rw [get_evalArith_scalar cfg s hf hs hout, if_pos rfl,
-    matchOperand_sound x.c x.E x.emits x.nodes x.env x.bind e cfg.first a n ha ih h1,
-    matchOperand_sound x.c x.E x.emits x.nodes x.env x.bind e cfg.second b n hb ih h2,
-    nodeVal_eq x.nodes x.env n hn ty (by rw [hnd]; rfl), hnd, hop]
-  simp only [evalNode, get_single, if_pos rfl,
-    argVal_prefix x.nodes x.env n (by omega) a ha, argVal_prefix x.nodes x.env n (by omega) b hb]
-  rw [rule_and_bool _ _ (bool_argVal x.nodes x.env a hba) (bool_argVal x.nodes x.env b hbb)]
-  simp
+  have hov := x.hagree.1 n name ty v e s hnode hbind
+  have : x.E e = [(s, (x.env.input name).getD v)] := by
+    rw [← x.hfix e]; unfold Circuit.evalEnt; rw [hov]
+  rw [this, nodeVal_eq x.nodes x.env n hn ty (by rw [hnd]; rfl), hnd]
+  simp [evalNode]
 
-theorem out_sig_eq (o : Option SigRef) (s : Sig)
-    (h : (match o with | some (.sig t) => t == s | _ => false) = true) : o = some (.sig s) := by
-  cases o with
-  | none => simp at h
-  | some r => cases r <;> simp_all
+theorem sound_const_ent (x : Ctx) (n e : Nat) (s : Sig) (ty : Sig) (v : I32)
+    (hnode : x.nodes[n]? = some (.const ty v)) (hbind : x.bind n = some (.ent e s))
+    (hkind : x.c.kind e = .const [(s, v)]) :
+    Holds x.E x.nodes x.env x.bind n := by
+  obtain ⟨hn, hnd⟩ := kind_getD x.nodes n _ hnode
+  unfold Holds
+  rw [hbind]
+  show get (x.E e) s = nodeVal x.nodes x.env n
+  have hno : x.inp e = none := x.hagree.2.1 n e s hbind (by intro name ty' v' hh; rw [hnode] at hh; cases hh)
+  rw [x.out_eq e hno, hkind, nodeVal_eq x.nodes x.env n hn ty (by rw [hnd]; rfl), hnd]
+  simp [evalNode]
 
-theorem dout_sig_eq (r : SigRef) (s : Sig)
-    (h : (match r with | .sig t => t == s | _ => false) = true) : r = .sig s := by
-  cases r <;> simp_all
+theorem sound_const_konst (x : Ctx) (n : Nat) (ty : Sig) (v : I32)
+    (hnode : x.nodes[n]? = some (.const ty v)) (hbind : x.bind n = some (.konst v)) :
+    Holds x.E x.nodes x.env x.bind n := by
+  obtain ⟨hn, hnd⟩ := kind_getD x.nodes n _ hnode
+  unfold Holds
+  rw [hbind]
+  show nodeVal x.nodes x.env n = v
+  rw [nodeVal_eq x.nodes x.env n hn ty (by rw [hnd]; rfl), hnd]
+  simp [evalNode]
 
-theorem operand_const_zero (o : Operand) (h : (match o with | .const k => k == 0 | _ => false) = true) : o = .const 0 := by
-  cases o <;> simp_all
-
-theorem not_true_eq_false' (b : Bool) (h : (!b) = true) : b = false := by cases b <;> simp_all
-
-theorem decider_shape (conds : List Cond) (outs : List DOut) (P : Cond → DOut → Bool)
-    (h : (match conds, outs with | [cd], [o] => P cd o | _, _ => false) = true) :
-    ∃ cd o, conds = [cd] ∧ outs = [o] ∧ P cd o = true := by
-  match conds, outs, h with
-  | [cd], [o], h => exact ⟨cd, o, rfl, rfl, h⟩
-  | [], _, h => simp at h
-  | _ :: _ :: _, _, h => simp at h
-  | [_], [], h => simp at h
-  | [_], _ :: _ :: _, h => simp at h
+/-- a node whose bound entity has the shape of one of its candidate lowerings -/
+theorem sound_lowered (x : Ctx) (n e : Nat) (s : Sig) (hn : n < x.nodes.size)
+    (hbind : x.bind n = some (.ent e s))
+    (ih : ∀ m, m < n → Holds x.E x.nodes x.env x.bind m)
+    (h : (lowerings x.nodes (n + 1) n).any (fun v => v.under n && entIs x.c x.nodes x.bind v e s) = true) :
+    Holds x.E x.nodes x.env x.bind n := by
+  unfold Holds
+  rw [hbind]
+  show get (x.E e) s = nodeVal x.nodes x.env n
+  rw [List.any_eq_true] at h
+  obtain ⟨v, hv, hp⟩ := h
+  simp only [Bool.and_eq_true] at hp
+  rw [entIs_sound x n ih v e s hp.1 hp.2]
+  exact lowerings_sound x.nodes x.env (n + 1) n v hv hn
 
 theorem checkNode_sound (x : Ctx) (n : Nat) (hn : n < x.nodes.size)
     (ih : ∀ m, m < n → Holds x.E x.nodes x.env x.bind m)
@@ -624,17 +1120,19 @@ theorem checkNode_sound (x : Ctx) (n : Nat) (hn : n < x.nodes.size)
   cases hb : x.bind n with
   | none => unfold Holds; rw [hb]; trivial
   | some b =>
-    rw [hb] at h
     cases b with
     | konst k =>
+      rw [hb] at h
+      simp only at h
       cases hk : x.nodes[n] with
       | const ty v =>
         rw [hk] at h hnd
-        simp only [beq_iff_eq] at h
-        subst h
+        have : v = k := by simpa using h
+        subst this
         exact sound_const_konst x n ty v hnd hb
       | _ => rw [hk] at h; simp at h
     | ent e s =>
+      rw [hb] at h
       simp only at h
       cases hk : x.nodes[n] with
       | input name ty v =>
@@ -642,117 +1140,21 @@ theorem checkNode_sound (x : Ctx) (n : Nat) (hn : n < x.nodes.size)
         exact sound_input x n e s name ty v hnd hb
       | const ty v =>
         rw [hk] at h hnd
+        simp only [checkEnt] at h
         cases hkind : x.c.kind e with
         | const m =>
           rw [hkind] at h
-          simp only at h
-          match m, h with
-          | [(t, v')], h =>
+          match m, h, hkind with
+          | [(t, v')], h, hkind =>
             simp only [Bool.and_eq_true, beq_iff_eq] at h
             obtain ⟨ht, hv⟩ := h
             subst ht; subst hv
             exact sound_const_ent x n e t ty v hnd hb hkind
         | _ => rw [hkind] at h; simp at h
-      | arith op a b ty =>
-        rw [hk] at h hnd
-        cases hkind : x.c.kind e with
-        | arith cfg =>
-          rw [hkind] at h
-          simp only [Bool.and_eq_true, beq_iff_eq] at h
-          obtain ⟨⟨⟨⟨⟨⟨⟨ha, hb'⟩, hop⟩, hf⟩, hs⟩, hout⟩, h1⟩, h2⟩ := h
-          exact sound_arith x n e s op a b ty cfg hnd hb hkind ih ha hb' hop (not_true_eq_false' _ hf)
-            (not_true_eq_false' _ hs) (out_sig_eq _ _ hout) h1 h2
-        | _ => rw [hkind] at h; simp at h
-      | proj a ty =>
-        rw [hk] at h hnd
-        cases hkind : x.c.kind e with
-        | arith cfg =>
-          rw [hkind] at h
-          simp only [Bool.and_eq_true, beq_iff_eq] at h
-          obtain ⟨⟨⟨⟨⟨⟨ha, hop⟩, hf⟩, hs⟩, hout⟩, h1⟩, h2⟩ := h
-          exact sound_proj x n e s a ty cfg hnd hb hkind ih ha hop (not_true_eq_false' _ hf)
-            (not_true_eq_false' _ hs) (out_sig_eq _ _ hout) h1 (operand_const_zero _ h2)
-        | _ => rw [hkind] at h; simp at h
-      | land a b ty =>
-        rw [hk] at h hnd
-        cases hkind : x.c.kind e with
-        | arith cfg =>
-          rw [hkind] at h
-          simp only [Bool.and_eq_true, beq_iff_eq] at h
-          obtain ⟨⟨⟨⟨⟨⟨⟨⟨⟨ha, hb'⟩, hba⟩, hbb⟩, hop⟩, hf⟩, hs⟩, hout⟩, h1⟩, h2⟩ := h
-          exact sound_land_bool x n e s a b ty cfg hnd hb hkind ih ha hb' hba hbb hop (not_true_eq_false' _ hf)
-            (not_true_eq_false' _ hs) (out_sig_eq _ _ hout) h1 h2
-        | _ => rw [hkind] at h; simp at h
-      | cmp op a b ty =>
-        rw [hk] at h hnd
-        cases hkind : x.c.kind e with
-        | decider cfg =>
-          rw [hkind] at h
-          obtain ⟨conds, outs⟩ := cfg
-          simp only [Bool.and_eq_true] at h
-          obtain ⟨⟨ha, hb'⟩, hsh⟩ := h
-          obtain ⟨cd, o, rfl, rfl, hP⟩ := decider_shape conds outs _ hsh
-          simp only [Bool.and_eq_true, beq_iff_eq] at hP
-          obtain ⟨⟨⟨⟨hc, hop⟩, ho⟩, h1⟩, h2⟩ := hP
-          exact sound_cmp x n e s op a b ty cd o hnd hb hkind ih ha hb' (not_true_eq_false' _ hc) hop ho h1 h2
-        | _ => rw [hkind] at h; simp at h
-      | lnot a ty =>
-        rw [hk] at h hnd
-        cases hkind : x.c.kind e with
-        | decider cfg =>
-          rw [hkind] at h
-          obtain ⟨conds, outs⟩ := cfg
-          simp only [Bool.and_eq_true] at h
-          obtain ⟨ha, hsh⟩ := h
-          obtain ⟨cd, o, rfl, rfl, hP⟩ := decider_shape conds outs _ hsh
-          simp only [Bool.and_eq_true, beq_iff_eq] at hP
-          obtain ⟨⟨⟨⟨hc, hop⟩, ho⟩, h1⟩, h2⟩ := hP
-          exact sound_lnot x n e s a ty cd o hnd hb hkind ih ha (not_true_eq_false' _ hc) hop ho h1 (operand_const_zero _ h2)
-        | _ => rw [hkind] at h; simp at h
-      | gate op a b v ty =>
-        rw [hk] at h hnd
-        cases hkind : x.c.kind e with
-        | decider cfg =>
-          rw [hkind] at h
-          obtain ⟨conds, outs⟩ := cfg
-          simp only [Bool.and_eq_true] at h
-          obtain ⟨⟨⟨ha, hb'⟩, hv⟩, hsh⟩ := h
-          obtain ⟨cd, o, rfl, rfl, hP⟩ := decider_shape conds outs _ hsh
-          simp only [Bool.and_eq_true, beq_iff_eq] at hP
-          obtain ⟨⟨⟨⟨⟨hc, hop⟩, h1⟩, h2⟩, hsig⟩, hval⟩ := hP
-          · have hos := dout_sig_eq _ _ hsig
-            refine sound_gate x n e s op a b v ty cd o hnd hb hkind ih ha hb' hv (not_true_eq_false' _ hc) hop h1 h2 hos ?_
-            cases v with
-            | int k =>
-              simp only [Bool.and_eq_true, beq_iff_eq] at hval
-              obtain ⟨hcopy, hk'⟩ := hval
-              have hcopy' := not_true_eq_false' _ hcopy
-              simp [hcopy', hk', argVal]
-            | node m =>
-              have hm : m < n := by simpa [argBelow] using hv
-              have ihm := ih m hm
-              unfold Holds at ihm
-              simp only at hval
-              cases hbm : x.bind m with
-              | none => simp [hbm] at hval
-              | some bm =>
-                rw [hbm] at hval ihm
-                cases bm with
-                | ent ev sv =>
-                  simp only [Bool.and_eq_true, beq_iff_eq] at hval
-                  obtain ⟨⟨hcopy, hsv⟩, hiso⟩ := hval
-                  subst hsv
-                  simp only [hcopy, if_true]
-                  rw [read_isolated x.c x.E x.emits e o.sel sv ev hiso]
-                  exact ihm
-                | konst k =>
-                  simp only [Bool.and_eq_true, beq_iff_eq] at hval
-                  obtain ⟨hcopy, hk'⟩ := hval
-                  have hcopy' := not_true_eq_false' _ hcopy
-                  simp only [hcopy', Bool.false_eq_true, if_false, hk']
-                  exact ihm.symm
-        | _ => rw [hkind] at h; simp at h
-      | _ => rw [hk] at h; cases hkind : x.c.kind e <;> simp [hkind] at h
+      | _ =>
+        rw [hk] at h
+        simp only [checkEnt] at h
+        exact sound_lowered x n e s hn hb ih h
 
 /-- **Matcher soundness.** If every node passes, every bound node reads its denotation in `E`. -/
 theorem checkAll_sound (x : Ctx) (h : checkAll x.c x.nodes x.bind = true) :
